@@ -192,3 +192,19 @@ def strip_expect(e):
             continue
         break
     return e
+
+
+def effective_cond(term):
+    """The condition a 2-way block actually branches on.  For `if (a || b)` Clang reports the whole `a || b` as the
+    terminator condition of the block that evaluates only `b` (a was decided by the preceding `||` block), so the
+    effective condition is the rightmost operand of the logical operators."""
+    c = term.get("cond") if term else None
+    if term and term.get("kind") in ("&&", "||"):
+        return c
+    while isinstance(c, dict):
+        c2 = strip_expect(c)
+        if isinstance(c2, dict) and c2.get("k") == "binop" and c2["op"] in ("&&", "||"):
+            c = c2["r"]
+            continue
+        break
+    return c
